@@ -345,6 +345,26 @@ func runC15(t *Trace, r *Rng, tier string, _ []string) {
 					it := rd.r.RangeIterator(a, b)
 					iters = append(iters, itr{it, nextID, rd.id, new(bool)})
 					t.Emit(sn+"/riter", true, fmt.Sprintf("riter %d %d %s %s", rd.id, nextID, optKey(a), optKey(b)), fmtCur(it))
+					// hot pattern: read a few entries, go a little back, read on (not on moss: seeking back is
+					// the engine-restart finding there)
+					if sn != "moss" && rr.Chance(50) {
+						var seen [][]byte
+						for st := 0; st < 2+rr.Intn(3) && it.Valid(); st++ {
+							k, _, _ := it.Current()
+							seen = append(seen, append([]byte(nil), k...))
+							it.Next()
+							t.Emit(sn+"/burst-next", true, fmt.Sprintf("next %d", nextID), fmtCur(it))
+						}
+						if len(seen) > 0 {
+							k := seen[rr.Intn(len(seen))]
+							it.Seek(k)
+							t.Emit(sn+"/burst-seek-back", true, fmt.Sprintf("seek %d %s", nextID, hx(k)), fmtCur(it))
+							if it.Valid() {
+								it.Next()
+								t.Emit(sn+"/burst-next", true, fmt.Sprintf("next %d", nextID), fmtCur(it))
+							}
+						}
+					}
 					nextID++
 				case len(iters) > 0:
 					it := iters[rr.Intn(len(iters))]
@@ -370,8 +390,25 @@ func runC15(t *Trace, r *Rng, tier string, _ []string) {
 						if *it.tainted {
 							cat = "moss/seek-engine-restart"
 						}
+						prevKey, _, prevOK := it.it.Current()
+						prevKey = append([]byte(nil), prevKey...)
 						it.it.Next()
 						t.Emit(cat, true, fmt.Sprintf("next %d", it.id), fmtCur(it.it))
+						// hot pattern: step forward, then seek a little back (to the entry just left, or to the
+						// very first key): an adapter that remembers where its last seek went must forget it on Next
+						if prevOK && rr.Chance(30) {
+							k := prevKey
+							if rr.Chance(30) {
+								k = []byte{}
+							}
+							scat := sn + "/seek-back-after-next"
+							if sn == "moss" {
+								*it.tainted = true
+								scat = "moss/seek-engine-restart"
+							}
+							it.it.Seek(k)
+							t.Emit(scat, true, fmt.Sprintf("seek %d %s", it.id, hx(k)), fmtCur(it.it))
+						}
 					}
 				}
 			}
